@@ -6,8 +6,67 @@ silent on the current tree."""
 HOOK_COMMITS = []
 
 NOTES = ("Runtime-monitoring verification of checkerlang-py. ./bin/check <id> --tier quick|thorough; "
-         "exit 0 held / 1 VIOLATION / 2 INCONCLUSIVE. Seeds via VERIF_SEED. See DESIGN.md.")
+         "exit 0 held / 1 VIOLATION / 2 INCONCLUSIVE (never folded into the others). Seeds via VERIF_SEED. "
+         "Every verdict is 'held on the executions observed'; see DESIGN.md for oracles, workloads and limits. "
+         "known_findings.json lists recorded findings (by mechanism) and the fix: commits made in /repo.")
 
-CLAIMED = {}
+_TB = ("trusted base: the harness (lib/cklmon, lib/cklgen) and the reference models in lib/cklref (written from the "
+       "property statements, independent of ckl); CPython 3.12 sys.monitoring for the logical step clock")
+
+CLAIMED = {
+    "C01": {
+        "technique": "runtime monitoring: boundary observer + sys.monitoring step clock around parse_script over generated hostile texts; same-text re-parse and cross-hash-seed process comparison",
+        "text": ("Every generated source text (exhaustive token strings <= 2 over the full token alphabet, <= 3 over a reduced one, "
+                 "grammar-derived programs with all prefixes/deletions and sampled insertions, character noise, nesting <= 40) must "
+                 "parse to a node tree or a CklSyntaxError with message, file name and line >= 1, within 20000+3000/char logical "
+                 "steps, identically on a second parse and under other hash seeds. Held on ~2*10^5 (quick) / ~3*10^6 (thorough) "
+                 "observed parses; says nothing about texts not generated."),
+        "note": _TB + "; nesting deeper than 40 is out of scope; messages/columns are not compared",
+    },
+    "C02": {
+        "technique": "runtime monitoring: differential oracle over interpreted expressions (flat vs fully parenthesised rendering, chain vs conjunction, reference expression semantics, exact-integer laws, predicate negation), exhaustive over operator pairs",
+        "text": ("For every ordered pair of binary operators over 17 typed/ill-typed operand triples, every unary/binary combination, "
+                 "every `is [not]` predicate form x 32 pool values, plus random typed trees to depth 5 with tick() probes: the "
+                 "interpreter's outcome must agree between the flat and the parenthesised text, with the reference semantics "
+                 "(value, kind, error, short-circuit order), and with exact integer laws up to 10^30. Exploration with an "
+                 "exhaustive operator-pair core."),
+        "note": _TB + "; % on negative operands only by law; mixed-kind ordering and membership-next-to-arithmetic not asserted",
+    },
+    "C06": {
+        "technique": "runtime monitoring: reference-equality oracle (exact rationals, structural) on all pairs/triples of adversarial value pools at the ckl.values API and through programs, plus always-on law wrappers on every __eq__/__hash__ call",
+        "text": ("All ordered pairs of a ~130..220-value adversarial pool per shard (numerics around 2^53/2^63/10^30, 1 vs 1.0, "
+                 "nested containers, twins built in other orders) are compared with the reference equality; every real-equal "
+                 "pair must hash equal; every (a==b, b==c) triple must give a==c; sets/maps built in every insertion order of "
+                 "<= 5 elements must have one element per equality class and answer membership/lookup/removal for every "
+                 "representative; the same through interpreted ==, !=, in, m[k], remove, set/list difference."),
+        "note": _TB + "; NaN/inf excluded; functions/streams/nodes are not data",
+    },
+    "C07": {
+        "technique": "runtime monitoring: reference total-order oracle on all same-kind pairs/triples of adversarial pools, derived operators, compare/min/max programs, postconditions on sorted() (ordered, stable permutation) and on set/map-key enumeration",
+        "text": ("Irreflexivity, asymmetry, transitivity, trichotomy and agreement with the reference order on all pairs/triples of "
+                 "pools of numbers, strings over an alphabet straddling the quote character, booleans, dates and lists; "
+                 "<=, >, >=, compare, less/greater, min, max consistent with <; sorted() output an ordered stable permutation "
+                 "(witnessed by [key, tag] pairs and 1 vs 1.0) with and without key/cmp; set and map keys enumerated ascending."),
+        "note": _TB + "; mixed-kind comparison (text fallback) deliberately not asserted",
+    },
+    "C08": {
+        "technique": "runtime monitoring: closed-loop oracle str(v) -> interpret -> v' (equal, same type, same text), rendering agreement across construction orders, numeral/quote shape predicates, invariant hook on every ValueInt construction",
+        "text": ("Data values to depth 3 over an adversarial alphabet, an exhaustive decimal magnitude ladder (every exponent "
+                 "-324..308 x 5 mantissas x sign) and powers of two: the rendering is identical for differently ordered "
+                 "constructions, ints render as integer numerals, decimals with a fractional part, strings re-lex to one token, "
+                 "and the rendered text evaluates back to an equal value of the same type with the same text. One recorded "
+                 "finding: patterns whose text cannot be spelled as a //..// literal."),
+        "note": _TB + "; dates/functions/objects are not data literals; sets mixing 1 and 1.0 excluded from the canonical-text clause",
+    },
+    "C13": {
+        "technique": "runtime monitoring: boundary observer + step clock (two-stage budget) over the exhaustive forms x pool and callees x pool-tuples matrix; outcome classes value / runtime error with language value / host exception / hang",
+        "text": ("~100 operator/indexing/slicing/iteration/spread/destructuring/predicate forms and every function of the legacy "
+                 "environment (thorough: also the non-legacy environment and all 14 modules via Module->f) are called with all "
+                 "tuples of a 28-value pool up to arity 2 (quick; sampled triples) / 3 (thorough), plus named arguments; every "
+                 "execution must end as a value or a CklRuntimeError carrying a language value within the step budget; a few "
+                 "CLI runs confirm the host survives. No expected values, so no model can be wrong."),
+        "note": _TB + "; pool magnitudes < 2^31; a case over 300k steps is re-run under 150M steps before it is called a hang",
+    },
+}
 
 UNCLAIMED = {}
